@@ -37,6 +37,7 @@ type Case struct {
 var aim = map[string]int{
 	"locals": 127, "temps": 127, "args": 127, "strings": 256, "types": 256, "funcs": 256, "natives": 256, "fields": 256, "generals": 256,
 	"ints": 16384, "floats": 16384,
+	"tmpl-strings": 256, "tmpl-vars": 127, "tmpl-macros": 256,
 }
 
 func wrap(where, decls, body string) string {
@@ -262,6 +263,9 @@ func hostWith(n int) native.Packages {
 
 // judge returns "" when the case is handled as the property demands, and the outcome class.
 func judge(c Case) (msg string, class string) {
+	if strings.HasPrefix(c.Family, "tmpl-") {
+		return judgeTemplate(c)
+	}
 	src, natives := build(c)
 	var opts sg.Opts
 	if natives > 0 {
@@ -304,10 +308,102 @@ func init() {
 	})
 }
 
+// template families: the main function of a template is subject to the same limits.
+func buildTemplate(c Case) string {
+	var b strings.Builder
+	n := c.N
+	switch c.Family {
+	case "tmpl-strings":
+		// n distinct string constants shown in one template body
+		for i := 0; i < n; i++ {
+			if c.Block {
+				fmt.Fprintf(&b, "{%% if true %%}{{ \"s%d;\" }}{%% end %%}", i)
+			} else {
+				fmt.Fprintf(&b, "{{ \"s%d;\" }}", i)
+			}
+		}
+	case "tmpl-vars":
+		for i := 0; i < n; i++ {
+			fmt.Fprintf(&b, "{%% var v%d = one(%d) %%}", i, i)
+		}
+		b.WriteString("{{ 0")
+		for i := 0; i < n; i++ {
+			fmt.Fprintf(&b, " + v%d", i)
+		}
+		b.WriteString(" }}")
+		return b.String()
+	case "tmpl-macros":
+		for i := 0; i < n; i++ {
+			fmt.Fprintf(&b, "{%% macro M%d %%}%d;{%% end %%}", i, i)
+		}
+		for i := 0; i < n; i++ {
+			if c.Block {
+				fmt.Fprintf(&b, "{%% if true %%}{{ M%d() }}{%% end %%}", i)
+			} else {
+				fmt.Fprintf(&b, "{{ M%d() }}", i)
+			}
+		}
+	}
+	return b.String()
+}
+
+func expectedTemplate(c Case) string {
+	var b strings.Builder
+	switch c.Family {
+	case "tmpl-strings":
+		for i := 0; i < c.N; i++ {
+			fmt.Fprintf(&b, "s%d;", i)
+		}
+	case "tmpl-vars":
+		return fmt.Sprint(c.N * (c.N - 1) / 2)
+	case "tmpl-macros":
+		for i := 0; i < c.N; i++ {
+			fmt.Fprintf(&b, "%d;", i)
+		}
+	}
+	return b.String()
+}
+
+func judgeTemplate(c Case) (msg string, class string) {
+	src := buildTemplate(c)
+	opts := sg.Opts{Globals: native.Declarations{"one": func(x int) int { return x }}}
+	t, res := sg.BuildTemplate(map[string]string{"index.txt": src}, "index.txt", opts)
+	if res.BuildPanic != nil {
+		return fmt.Sprintf("BuildTemplate panicked: %v", res.BuildPanic), "panic"
+	}
+	if res.BuildErr != nil {
+		var be *scriggo.BuildError
+		if !errors.As(res.BuildErr, &be) {
+			return fmt.Sprintf("BuildTemplate failed with %T, not a *BuildError: %v", res.BuildErr, res.BuildErr), "error"
+		}
+		if !strings.Contains(be.Message(), "exceeded") {
+			return fmt.Sprintf("a valid template is rejected with an error that is not a limit error: %v", res.BuildErr), "error"
+		}
+		return "", "limit:" + strings.TrimSpace(strings.SplitN(be.Message(), "count", 2)[0])
+	}
+	r := sg.RunTemplate(t, opts)
+	if d := r.Describe(); d != "" {
+		return "the template builds but does not run: " + d, "run"
+	}
+	if want := expectedTemplate(c); r.Out != want {
+		return fmt.Sprintf("the template builds but renders %q, want %q", clipS(r.Out), clipS(want)), "wrong"
+	}
+	return "", "ok"
+}
+
+func clipS(s string) string {
+	if len(s) > 300 {
+		return s[:150] + "…" + s[len(s)-150:]
+	}
+	return s
+}
+
+var templateFamilies = []string{"tmpl-strings", "tmpl-vars", "tmpl-macros"}
+
 var families = []string{"locals", "temps", "args", "strings", "types", "funcs", "natives", "fields", "generals"}
 
 func genCase(t *rapid.T, big bool) Case {
-	fams := families
+	fams := append(append([]string{}, families...), templateFamilies...)
 	if big {
 		fams = []string{"ints", "floats"}
 	}
@@ -348,7 +444,11 @@ func run(t *rapid.T, c Case) {
 		ev.NontrivialSample(map[string]any{"family": c.Family, "n": c.N, "where": c.Where, "typ": c.Typ, "block": c.Block, "outcome": class}, c.Family, fmt.Sprint(c.N), c.Where, c.Typ, fmt.Sprint(c.Block))
 	}
 	if msg != "" {
-		c.Src, _ = build(c)
+		if strings.HasPrefix(c.Family, "tmpl-") {
+			c.Src = buildTemplate(c)
+		} else {
+			c.Src, _ = build(c)
+		}
 		if len(c.Src) > 4000 {
 			c.Src = c.Src[:4000] + "…"
 		}
